@@ -401,7 +401,7 @@ def main_check(check_factory, argv=None):
             if confirm is None:
                 break
         if confirm is None and not failure.get('path'):
-            print('NOTE: failing case did not reproduce on replay (not reported): %s' % failure['msg'][:500])
+            print('NOTE: failing case did not reproduce on replay (not reported): %s' % failure['msg'][:5000])
             stats.extra['unreproducible_failures'] = 1
         else:
             path = failure.get('path') or save_replay(pid, failure['case'], failure['msg'])
